@@ -104,6 +104,27 @@ func randCols(r *Rng, sk, dk Kind, nch, frames int, allowNil bool) [][]uint64 {
 	return cols
 }
 
+
+// longShape: shapes around the thresholds at which fast paths, unrolling or chunking usually switch
+// (frames next to 32..4096, channel counts up to 32), bounded so that a dump stays below ~4200 cells.
+func longShape(r *Rng) (ch, frames int) {
+	fr := []int{31, 32, 33, 63, 64, 65, 100, 127, 128, 129, 255, 256, 257, 511, 512, 513, 1000, 1023, 1024, 1025, 2047, 2048, 2049, 4095, 4096, 4097}
+	chs := []int{1, 2, 3, 4, 5, 7, 8, 9, 15, 16, 17, 32}
+	for {
+		ch, frames = chs[r.Intn(len(chs))], fr[r.Intn(len(fr))]
+		if ch*frames <= 4200 {
+			return
+		}
+	}
+}
+
+func nLong(tier string) int {
+	if tier == "thorough" {
+		return 40
+	}
+	return 6
+}
+
 func genC01(w *World, r *Rng, tier string) {
 	reps := 1
 	maxCh, maxFr := 4, 4
@@ -144,9 +165,68 @@ func genC01(w *World, r *Rng, tier string) {
 					w.AppendSample(v, patt(dk, 7))
 					w.Write(v, sk, valsFor(r, sk, dk, lenChoice(r, w.views[v].Len())))
 					w.Read(v, sk, valsFor(r, sk, sk, lenChoice(r, w.views[v].Len())))
+					// an Append of the missing samples makes the frames whole again (two partial frames
+					// joined): every form must then see the new frame count
+					if rem := w.views[v].Len() % ch; rem != 0 && r.Bool() {
+						tail := w.Alloc(dk, false, ch, 0, 1)
+						for i := 0; i < ch-rem; i++ {
+							w.AppendSample(tail, patt(dk, 20+i))
+						}
+						w.Append(v, tail)
+						w.st.branch("striped-after-joining-append")
+						fr2 := w.views[v].Length()
+						w.WriteStriped(v, sk, randCols(r, sk, dk, ch, fr2, false))
+						w.ReadStriped(v, sk, randCols(r, sk, sk, ch, fr2, false))
+						w.Read(v, sk, valsFor(r, sk, sk, w.views[v].Len()))
+					}
 				}
 			}
 		}
+	}
+}
+
+// long buffers and many channels for the readers / writers (C01)
+func genC01Long(w *World, r *Rng, tier string) {
+	for i := 0; i < nLong(tier); i++ {
+		sk, dk := r.Kind(), r.Kind()
+		if i%2 == 0 {
+			sk = dk // same-type paths are where bulk copies live
+		}
+		ch, fr := longShape(r)
+		w.Case(fmt.Sprintf("C01 long %s>%s ch%d fr%d", sk, dk, ch, fr))
+		w.st.shape("long/ch%d/fr%d", ch, fr)
+		base := w.Alloc(dk, false, ch, fr, fr+r.Range(0, 2))
+		fillAll(w, base, 3)
+		v := base
+		if r.Bool() {
+			s := r.Range(0, 3)
+			v = w.Slice(base, s, fr-r.Range(0, 2))
+		}
+		L := w.views[v].Len()
+		for _, n := range []int{L, L - 1, L + 5, L / 2} {
+			w.Write(v, sk, valsFor(r, sk, dk, maxInt(0, n)))
+			w.Read(v, sk, valsFor(r, sk, sk, maxInt(0, n)))
+		}
+		frames := w.views[v].Length()
+		cols := make([][]uint64, ch)
+		for c := range cols {
+			switch c % 4 {
+			case 0:
+				cols[c] = valsFor(r, sk, dk, frames)
+			case 1:
+				cols[c] = valsFor(r, sk, dk, frames-1)
+			case 2:
+				cols[c] = valsFor(r, sk, dk, frames/2)
+			default:
+				cols[c] = valsFor(r, sk, dk, frames+2)
+			}
+		}
+		w.WriteStriped(v, sk, cols)
+		rcols := make([][]uint64, ch)
+		for c := range rcols {
+			rcols[c] = valsFor(r, sk, sk, frames-c%3)
+		}
+		w.ReadStriped(v, sk, rcols)
 	}
 }
 
@@ -410,6 +490,199 @@ func genC05(w *World, r *Rng, tier string) {
 	}
 }
 
+
+// long buffers, many channels and windows of one parent for the conversions (C05)
+func genC05Long(w *World, r *Rng, tier string) {
+	classes := [][]Kind{{I8, I16, I32, I64, INT}, {U8, U16, U32, U64, UINT, UINTPTR}, {F32, F64}}
+	n := 9
+	if tier == "thorough" {
+		n = 54
+	}
+	for i := 0; i < n; i++ {
+		// every one of the nine conversion functions gets long shapes
+		cs, cd := classes[i%3], classes[(i/3)%3]
+		sk, dk := cs[r.Intn(len(cs))], cd[r.Intn(len(cd))]
+		ch, fr := longShape(r)
+		alias := i%3 == (i/3)%3 && r.Bool()
+		if alias {
+			dk = sk
+		}
+		w.Case(fmt.Sprintf("C05 long %s %s>%s ch%d fr%d alias=%v", convName(sk, dk), sk, dk, ch, fr, alias))
+		w.st.shape("long/ch%d/fr%d/alias%v", ch, fr, alias)
+		sb := w.Alloc(sk, false, ch, fr, fr+1)
+		full := w.Slice(sb, 0, fr+1)
+		vals := make([]uint64, ch*(fr+1))
+		for j := range vals {
+			vals[j] = convVal(r, sk, dk)
+		}
+		w.Write(full, sk, vals)
+		w.Drop(full)
+		var src, dst int
+		if alias {
+			// source and destination are windows of one parent: disjoint halves, or the destination
+			// strictly behind the source start (the ascending loop reads every sample before it is overwritten)
+			half := fr / 2
+			if r.Bool() {
+				src = w.Slice(sb, 0, half)
+				dst = w.Slice(sb, half, fr)
+			} else {
+				src = w.Slice(sb, 2, fr)
+				dst = w.Slice(sb, 0, fr-2)
+			}
+		} else {
+			db := w.Alloc(dk, false, ch, fr-r.Range(0, 2), fr+r.Range(0, 2))
+			fillAll(w, db, 3)
+			src, dst = sb, db
+			if r.Bool() {
+				src = w.Slice(sb, r.Range(0, 2), fr)
+			}
+			if r.Bool() {
+				dst = w.Slice(db, r.Range(0, 2), w.views[db].Length())
+			}
+		}
+		if src < 0 || dst < 0 {
+			continue
+		}
+		if r.Intn(3) == 0 && w.views[src].Len() < w.views[src].Cap() && !alias {
+			w.AppendSample(src, convVal(r, sk, dk))
+		}
+		w.Conv(src, dst)
+	}
+}
+
+// long buffers for Append (C03) and AppendSample (C04)
+func genC03Long(w *World, r *Rng, tier string) {
+	for i := 0; i < nLong(tier); i++ {
+		k := r.Kind()
+		ch, fr := longShape(r)
+		w.Case(fmt.Sprintf("C03 long %s ch%d fr%d", k, ch, fr))
+		w.st.shape("long/ch%d/fr%d", ch, fr)
+		half := fr / 2
+		base := w.Alloc(k, false, ch, half, fr)
+		fillAll(w, base, 0)
+		sib := w.Slice(base, half, fr) // a view over the spare capacity
+		_ = sib
+		src := w.Alloc(k, false, ch, fr-half, fr-half)
+		fillAll(w, src, 50)
+		switch i % 4 {
+		case 0: // exact fit, in place
+			w.Append(base, src)
+		case 1: // one frame too many: grows
+			w.AppendSample(base, small(k, 9))
+			w.Append(base, src)
+		case 2: // self-append in place, then growing
+			w.Append(base, base)
+			w.Append(base, base)
+		default: // source is a window of the destination's own storage, before its end
+			win := w.Slice(base, 0, half/2)
+			w.Append(base, win)
+		}
+		if w.views[base].Len() > 0 {
+			w.Set(base, w.views[base].Len()-1, small(k, 77))
+		}
+	}
+}
+
+// growing appends whose new length is just past a size threshold and not a whole number of frames
+func genC03Thresholds(w *World, r *Rng, tier string) {
+	ths := []int{64, 256, 1024, 4096}
+	for _, T := range ths {
+		for _, ch := range []int{2, 3, 5} {
+			if tier != "thorough" && r.Intn(2) == 0 {
+				continue
+			}
+			k := r.Kind()
+			w.Case(fmt.Sprintf("C03 threshold %s ch%d T%d", k, ch, T))
+			w.st.shape("threshold/ch%d/T%d", ch, T)
+			fr := (T + ch - 1) / ch
+			base := w.Alloc(k, false, ch, fr, fr+1)
+			fillAll(w, base, 0)
+			w.AppendSample(base, small(k, 9)) // partial last frame
+			src := w.Alloc(k, false, ch, 1, 2)
+			fillAll(w, src, 50)
+			if r.Bool() {
+				w.AppendSample(src, small(k, 8))
+			}
+			w.Append(base, src) // cap (fr+1)*ch < fr*ch + 1 + ch: grows
+			w.Set(base, w.views[base].Len()-1, small(k, 77))
+			// and once more, from a whole number of frames
+			w.Append(base, src)
+		}
+	}
+}
+
+func genC04Long(w *World, r *Rng, tier string) {
+	for i := 0; i < nLong(tier)/2+1; i++ {
+		k := r.Kind()
+		ch, fr := longShape(r)
+		w.Case(fmt.Sprintf("C04 long %s ch%d fr%d", k, ch, fr))
+		w.st.shape("long/ch%d/fr%d", ch, fr)
+		base := w.Alloc(k, false, ch, fr-1, fr)
+		fillAll(w, base, 0)
+		alias := w.Slice(base, 0, fr)
+		_ = alias
+		for j := 0; j < ch+2; j++ {
+			if j%3 == 1 {
+				w.AppendSample(base, 0)
+			} else {
+				w.AppendSample(base, patt(k, 50+j))
+			}
+		}
+	}
+}
+
+// long windows, threshold positions (C02) and many channels (C14)
+func genC02Long(w *World, r *Rng, tier string) {
+	for i := 0; i < nLong(tier); i++ {
+		k := r.Kind()
+		ch, fr := longShape(r)
+		w.Case(fmt.Sprintf("C02 long %s ch%d fr%d", k, ch, fr))
+		w.st.shape("long/ch%d/fr%d", ch, fr)
+		base := w.Alloc(k, false, ch, fr-r.Range(0, 3), fr)
+		fillAll(w, base, 1)
+		for _, se := range [][2]int{{0, fr}, {1, fr}, {fr - 1, fr}, {fr, fr}, {fr / 2, fr/2 + 1}, {31, 33}, {0, fr + 1}, {fr, fr + 1}, {fr/2 + 1, fr / 2}} {
+			c := w.Slice(base, se[0], se[1])
+			if c >= 0 && w.views[c].Len() > 0 {
+				w.Set(c, w.views[c].Len()-1, small(k, 66))
+				w.Get(c, 0)
+			}
+			if c >= 0 && i%2 == 0 {
+				// slice of the slice up to its capacity
+				c2 := w.Slice(c, 0, w.views[c].Capacity())
+				w.Drop(c2)
+			}
+			w.Drop(c)
+		}
+	}
+}
+
+func genC14Long(w *World, r *Rng, tier string) {
+	for i := 0; i < nLong(tier); i++ {
+		k := r.Kind()
+		ch, fr := longShape(r)
+		w.Case(fmt.Sprintf("C14 long %s ch%d fr%d", k, ch, fr))
+		w.st.shape("long/ch%d/fr%d", ch, fr)
+		base := w.Alloc(k, false, ch, fr-1, fr)
+		fillAll(w, base, 2)
+		for _, c := range []int{0, ch - 1, ch / 2} {
+			w.ChanShape(base, c)
+			for _, ix := range []int{0, 1, fr / 2, fr - 2, fr - 1} {
+				w.ChanIndex(base, c, ix)
+				w.ChanGet(base, c, ix)
+			}
+			w.ChanSet(base, c, fr-2, small(k, 70+c%20))
+			w.ChanGet(base, c, fr-2)
+		}
+		for j := 0; j < ch; j++ {
+			w.AppendSample(base, small(k, 30+j%60))
+		}
+		for _, c := range []int{0, ch - 1} {
+			w.ChanShape(base, c)
+			w.ChanGet(base, c, fr-1)
+		}
+	}
+}
+
 func genC10(w *World, r *Rng, tier string) {
 	reps := 40
 	steps := 30
@@ -602,6 +875,16 @@ func genC12(w *World, r *Rng, tier string) {
 					live = append(live, id)
 				}
 			}
+			if len(live) == 0 && rep%5 == 4 {
+				// every fifth history starts from a long buffer (thresholds of fast paths)
+				ch, fr := longShape(r)
+				for ch*fr > 260 {
+					ch, fr = longShape(r)
+				}
+				w.st.shape("long/ch%d/fr%d", ch, fr)
+				w.Alloc(k, false, ch, fr-r.Range(0, 2), fr)
+				continue
+			}
 			if len(live) == 0 || (len(live) < 6 && r.Intn(6) == 0) {
 				ch := r.Range(1, 3)
 				K := r.Range(0, 6)
@@ -638,6 +921,45 @@ func genC12(w *World, r *Rng, tier string) {
 				s2 := cands[r.Intn(len(cands))]
 				w.Append(v, s2)
 			}
+		}
+	}
+}
+
+// in-place appends whose source is a window of the destination's own parent: ahead of, behind and
+// across the position the append writes to (a plain Go append reads the source before writing)
+func genC12Overlap(w *World, r *Rng, tier string) {
+	reps := 30
+	if tier == "thorough" {
+		reps = 400
+	}
+	for rep := 0; rep < reps; rep++ {
+		k := r.Kind()
+		ch := r.Range(1, 3)
+		K := r.Range(3, 10)
+		w.Case(fmt.Sprintf("C12 overlap %s ch%d K%d", k, ch, K))
+		parent := w.Alloc(k, false, ch, K, K)
+		fillAll(w, parent, 10)
+		a := r.Range(0, K-1)
+		dst := w.Slice(parent, 0, a)
+		n := r.Range(1, K-a)
+		b := r.Range(0, K-n)
+		src := w.Slice(parent, b, b+n)
+		if dst < 0 || src < 0 {
+			continue
+		}
+		switch {
+		case b+n <= a:
+			w.st.branch("overlap-src-inside-dst")
+		case b >= a+n:
+			w.st.branch("overlap-src-beyond-written")
+		case b >= a:
+			w.st.branch("overlap-src-ahead")
+		default:
+			w.st.branch("overlap-src-behind")
+		}
+		w.Append(dst, src)
+		if w.views[dst].Len() > 0 {
+			w.Set(dst, w.views[dst].Len()-1, small(k, 88))
 		}
 	}
 }
@@ -789,6 +1111,32 @@ func genC15(w *World, r *Rng, tier string) {
 				}
 				w.ReadStriped(d, sk, cols2)
 			}
+		}
+		// the same with many slices and many channels (fast paths for wide buffers)
+		for _, cn := range [][2]int{{12, 9}, {2, 9}, {9, 8}, {8, 9}, {16, 17}, {17, 16}, {33, 32}, {3, 12}, {10, 1}} {
+			ch, n := cn[0], cn[1]
+			sk, dk := r.Kind(), r.Kind()
+			w.Case(fmt.Sprintf("C15 striped wide ch%d n%d", ch, n))
+			d := w.Alloc(dk, false, ch, 2, 3)
+			fillAll(w, d, 5)
+			cols := make([][]uint64, n)
+			for i := range cols {
+				cols[i] = valsFor(r, sk, dk, 2)
+			}
+			w.WriteStriped(d, sk, cols)
+			cols2 := make([][]uint64, n)
+			for i := range cols2 {
+				cols2[i] = valsFor(r, sk, sk, 2)
+			}
+			w.ReadStriped(d, sk, cols2)
+			// conversions and appends between wide buffers of different channel counts
+			s2 := w.Alloc(sk, false, n, 2, 3)
+			fillAll(w, s2, 9)
+			d2 := w.Alloc(dk, false, ch, 2, 3)
+			fillAll(w, d2, 11)
+			w.Conv(s2, d2)
+			s3 := w.Alloc(dk, false, n, 2, 3)
+			w.Append(d2, s3)
 		}
 		// pool: put a buffer with a different total capacity
 		for i := 0; i < 6; i++ {
